@@ -34,11 +34,12 @@ class BisectStub:
         lower, upper = torch.as_tensor(lower), torch.as_tensor(upper)
         fl, fu = fn(lower), fn(upper)
         tshape = tuple(target.shape) if isinstance(target, torch.Tensor) else ()
-        if tshape:
-            # contract of bisect: fn acts elementwise on tensors of the target's shape (after the first iteration the
-            # midpoints have that shape)
-            probe_full = fn(st.fresh_tensor(tshape, "probe", torch.float64))
-            elementwise = tuple(probe_full.shape) == tshape
+        full = tuple(torch.broadcast_shapes(tuple(lower.shape), tuple(upper.shape), tshape))
+        if full:
+            # contract of bisect: fn acts elementwise on tensors of the working shape (after the first iteration the
+            # midpoints have the broadcast shape of lower, upper and target)
+            probe_full = fn(st.fresh_tensor(full, "probe", torch.float64))
+            elementwise = tuple(probe_full.shape) == full
             c.check("%s call %d: fn maps a tensor of the target's shape elementwise" % (self.name, k), elementwise)
             if not elementwise:
                 raise NotElementwise()
@@ -106,10 +107,13 @@ class BisectSpy:
         self.calls.append({"precision": precision, "inside": api.Rel(True)})
         lo, up = torch.as_tensor(lower), torch.as_tensor(upper)
         tshape = tuple(target.shape) if isinstance(target, torch.Tensor) else ()
-        if tshape:
-            pf = fn(torch.full(tshape, float((lo + up).reshape(-1)[0]) / 2, dtype=torch.float64))
-            elementwise = tuple(pf.shape) == tshape
-            c.check("%s call %d: fn maps a tensor of the target's shape elementwise" % (self.name, k), api.Rel(elementwise, 1.0, "fn returns shape %s for an input of shape %s" % (tuple(pf.shape), tshape)))
+        full = tuple(torch.broadcast_shapes(tuple(lo.shape), tuple(up.shape), tshape))
+        if full:
+            pf = fn(torch.full(full, float((lo + up).reshape(-1)[0]) / 2, dtype=torch.float64))
+            elementwise = tuple(pf.shape) == full
+            c.check("%s call %d: fn maps a tensor of the target's shape elementwise" % (self.name, k), api.Rel(elementwise, 1.0, "fn returns shape %s for an input of shape %s" % (tuple(pf.shape), full)))
+            if not elementwise:
+                return self.real(fn, target, lower, upper, precision=precision, max_iter=max_iter)
         if bool((lo < up).all()):
             fl, fu = fn(lo), fn(up)
             tol = 1e-12
